@@ -169,11 +169,232 @@ for src in DISPLAYS:
     con.cases.append(c)
 
 
+# ---- (6) keyword collection of a call (apply_impl, ast.Call branch / convert_call): the real branch against CPython itself ------
+# "Calls that CPython rejects for argument-binding reasons are rejected too": a keyword given twice (explicitly and through
+# a ** mapping, or through two ** mappings) and a non-string key of a ** mapping are binding errors in CPython (TypeError).
+I.register_inline(OUT.Expression.__dict__["result"])
+I.register_inline(OUT.Statement.__dict__["bound_statements"])
+
+
+def _kwfn(*args, **kwargs):
+    return (args, kwargs)
+
+
+CALLS = ["f(a=1, **m)", "f(**m, z=1)", "f(1, *t, b=2, **m)", "f(**m, **n)", "f(a=1, **{'a': 2})", "f(**{'a': 1}, **{'a': 2})", "f(**m, c=9)", "f(**{1: 2})", "f(*t, **{})", "f()"]
+CALL_ENV = {"f": _kwfn, "m": {"b2": 2, "c": 4}, "n": {"d": 5, "w": 16}, "t": (7, 8)}
+for src in CALLS:
+    node = ast.parse(src, mode="eval").body
+    try:
+        _want = ("value", eval(src, dict(CALL_ENV)))
+    except TypeError as e:
+        _want = ("raises", str(e))
+
+    def call_spec(sx, self, inp, src=src, want=_want):
+        if want[0] == "raises":
+            sx.reject(AssertionError)  # CPython rejects this call (TypeError): it must be rejected
+
+        def holds(res):
+            got = res.fields.get("f_result") if isinstance(res, SObj) and res.kind is _Expr else None
+            return isinstance(got, tuple) and got[0] == want[1][0] and list(got[1].items()) == list(want[1][1].items())
+
+        return C.Pred(holds, f"the arguments CPython passes: {want[1]!r}")
+
+    def _apply_call_sub(it, self, n):
+        if isinstance(n, ast.Starred):
+            return SObj(OUT.StarredValue, _result=list(eval(compile(ast.Expression(n.value), "<call>", "eval"), dict(CALL_ENV))), _bound_statements=[])
+        return SObj(_Expr, f_result=eval(compile(ast.Expression(n), "<call>", "eval"), dict(CALL_ENV)), f_bound=[], _bound_statements=[])
+
+    def _call_subcall(it, self, fn, args, kwargs, noreturn=None):
+        # the callee is `_kwfn`, which returns what it was bound to; binding itself (FunctionDefinition.bind_args) is the
+        # subject of c10_bind.bind_sweep, so the collected arguments are returned as they are
+        assert fn is _kwfn
+        return SObj(_Expr, f_result=(tuple(args), dict(kwargs)), f_bound=[], _bound_statements=[])
+
+    c = Case(f"call-keywords:{src}", [SELF, Built([], (lambda n: lambda env: n)(node), lambda a: "<call>", lambda a: None)], call_spec)
+    c.native = False
+    c.models = [(_Prep.apply, _apply_call_sub), (_Prep.subcall, _call_subcall), (PA._is_intrinsic, lambda it, x: False), (PA._is_expr_function, lambda it, x: False)]
+    c.interp_flags = {"class_call_models": {OUT.Value: lambda it, args, kw: SObj(OUT.Value, _result=args[0], _bound_statements=args[1])}}
+    con.cases.append(c)
+
+
+# ---- (7) default values of local functions and lambdas (apply_impl, ast.FunctionDef / ast.Lambda branches) -------------------------
+# CPython evaluates each default expression once, at definition time, and binds the resulting VALUE to the parameter.
+class _FnDefStub:
+    def location(self):
+        return None
+
+
+class _LocStub:
+    def relative(self, n):
+        return None
+
+
+class _FDefStub:
+    """stands for the FunctionDefinition built by from_ast_fn: the converted defaults are what bind_args later binds"""
+
+
+_Prep.set_local = lambda self, name, value: None
+I.register_model(_FnDefStub.location, lambda it, self: SObj(_LocStub, line=10, function=None))
+I.register_model(_LocStub.relative, lambda it, self, n: SObj(_LocStub, line=10 + n, function=None))
+
+
+def _set_local(it, self, name, value):
+    it.declared[name] = value
+    return None
+
+
+I.register_model(_Prep.set_local, _set_local)
+
+
+def _from_ast_fn(it, fn_def, name, global_dict=None, nonlocal_dict=None, self_arg=None, default_converter=None, captured_defaults=None, location=None, add_self_to_nonlocal=False):
+    # what the real from_ast_fn does with the defaults when captured_defaults is None (l.268-282): convert each default
+    # node once, positional defaults first, keyed by parameter name
+    a = fn_def.args
+    names = [p.arg for p in a.posonlyargs + a.args]
+    pos = names[len(names) - len(a.defaults):] if a.defaults else []
+    defaults = {n: it.call(default_converter, [d], {}, None) for n, d in zip(pos, a.defaults)}
+    kwdefaults = {p.arg: it.call(default_converter, [d], {}, None) for p, d in zip(a.kwonlyargs, a.kw_defaults) if d is not None}
+    return SObj(_FDefStub, name=name, defaults=defaults, kwdefaults=kwdefaults)
+
+
+DEFS = ["def g(a=5, *, b=7): pass", "def g(p, q=(1, 2), /, r='s', *, k, kd=None): pass", "def g(): pass", "lambda a, b=3, *, c=[4]: a", "lambda: 0"]
+for src in DEFS:
+    is_lambda = src.startswith("lambda")
+    node = ast.parse(src, mode="eval").body if is_lambda else ast.parse(src).body[0]
+    _ref = eval(src) if is_lambda else None
+    if not is_lambda:
+        _ns = {}
+        exec(src, _ns)
+        _ref = _ns["g"]
+    _pnames = list(_ref.__code__.co_varnames[: _ref.__code__.co_argcount])
+    _want_defaults = dict(zip(_pnames[len(_pnames) - len(_ref.__defaults__ or ()):], _ref.__defaults__ or ()))
+    _want_kw = dict(_ref.__kwdefaults__ or {})
+
+    def defaults_spec(sx, self, inp, is_lambda=is_lambda, wd=_want_defaults, wk=_want_kw):
+        it = sx.it
+
+        def holds(res):
+            if is_lambda:
+                fdef = res.fields.get("_result") if isinstance(res, SObj) and res.kind is OUT.Value else None
+            else:
+                fdef = it.declared.get("g")
+            if not (isinstance(fdef, SObj) and fdef.kind is _FDefStub):
+                return False
+            got_d, got_k = fdef.fields["defaults"], fdef.fields["kwdefaults"]
+            return list(got_d.items()) == list(wd.items()) and list(got_k.items()) == list(wk.items()) and all(type(got_d[k]) is type(wd[k]) for k in wd) and all(type(got_k[k]) is type(wk[k]) for k in wk)
+
+        return C.Pred(holds, f"the function is declared with the default VALUES CPython binds: {wd!r} / {wk!r}")
+
+    def _apply_default(it, self, n):
+        return SObj(_Expr, f_result=ast.literal_eval(n), f_bound=[], _bound_statements=[])
+
+    def _def_setup(it, ctx, args, env):
+        it.declared = {}
+
+    c = Case(f"defaults:{src}", [Built([], lambda env: SObj(_Prep, _last_apply_inp=None, _context=None, _fn_def=_FnDefStub(), _scope={}), lambda a: "<self>", lambda a: None), Built([], (lambda n: lambda env: n)(node), lambda a: "<def>", lambda a: None)], defaults_spec)
+    c.native = False
+    c.setup = _def_setup
+    c.models = [(_Prep.apply, _apply_default), (_static(CAS.FunctionDefinition, "from_ast_fn"), _from_ast_fn)]
+    c.interp_flags = {"class_call_models": {OUT.Value: lambda it, args, kw: SObj(OUT.Value, _result=args[0], _bound_statements=kw.get("bound_statements", args[1] if len(args) > 1 else [])),
+                                            OUT.CodeBlock: lambda it, args, kw: SObj(OUT.CodeBlock, _content=args[0])}}
+    con.cases.append(c)
+
+
+for _c in con.cases:
+    if _c.name.startswith("call-keywords:"):
+        _c.custom_replay = "contracts.c10_subset.replay_call_keywords"
+    elif _c.name.startswith("defaults:"):
+        _c.custom_replay = "contracts.c10_subset.replay_local_defaults"
+
+_PROBE = '''
+import cohdl
+from cohdl import std
+
+seen = {}
+
+@cohdl.pyeval
+def record(name, value):
+    seen[name] = value
+
+def compare(name, fn):
+    class Probe(cohdl.Entity):
+        def architecture(self):
+            @std.concurrent
+            def logic():
+                record(name, fn())
+    try:
+        std.VhdlCompiler.to_string(Probe)
+        got = ("value", seen.get(name))
+    except BaseException as err:
+        got = ("rejected", type(err).__name__)
+    try:
+        ref = ("value", fn())
+    except BaseException as err:
+        ref = ("raises", type(err).__name__)
+    print("SAME" if (got == ref or got[0] == "rejected") else "DEVIATES", name, "compiled:", got, "CPython:", ref)
+
+def kw(*args, **kwargs):
+    return (args, kwargs)
+
+m = {"b2": 2, "c": 4}
+'''
+
+_CALL_PROGRAMS = _PROBE + '''
+def p1(): return kw(a=1, **{"a": 2})
+def p2(): return kw(**{"a": 1}, **{"a": 2})
+def p3(): return kw(**m, c=9)
+def p4(): return kw(**{1: 2})
+
+class K:
+    def __new__(cls, a, b=2): return object.__new__(cls)
+    def __init__(self, a, b=2):
+        self.a = a
+        self.b = b
+
+def p5():
+    k = K(1, b=5)
+    return (k.a, k.b)
+
+for i, p in enumerate((p1, p2, p3, p4, p5)):
+    compare(f"program-{i + 1}", p)
+'''
+
+_DEFAULT_PROGRAMS = _PROBE + '''
+def p1():
+    def g(a=5, *, b=7):
+        return [a, b]
+    r = g()
+    return [type(r[0]).__name__, type(r[1]).__name__]
+
+def p2():
+    g = lambda a, b=3, *, c=(4,): (a, b, c)
+    r = g(1)
+    return [type(x).__name__ for x in r]
+
+for i, p in enumerate((p1, p2)):
+    compare(f"program-{i + 1}", p)
+'''
+
+
+def replay_call_keywords(payload):
+    from contracts.c06_extra import _run_design
+
+    rc, out = _run_design(_CALL_PROGRAMS)
+    return {"reproduced": rc == 0 and "DEVIATES" in out, "detail": "\n".join(l for l in out.splitlines() if l.startswith(("DEVIATES", "SAME")))[-900:]}
+
+
+def replay_local_defaults(payload):
+    from contracts.c06_extra import _run_design
+
+    rc, out = _run_design(_DEFAULT_PROGRAMS)
+    return {"reproduced": rc == 0 and "DEVIATES" in out, "detail": "\n".join(l for l in out.splitlines() if l.startswith(("DEVIATES", "SAME")))[-900:]}
+
+
 # ---- (2) / (3) bounded sweeps against CPython --------------------------------------------------------------------------------
 def _cpython_unpack(n_targets, star, source):
     names = [f"t{i}" for i in range(n_targets)]
     lhs = ", ".join(("*" + n) if i == star else n for i, n in enumerate(names)) + ("," if n_targets == 1 else "")
-    ns = {"src": list(source)}
+    ns = {"src": source}
     try:
         exec(f"{lhs} = src", ns)
     except ValueError:
@@ -186,7 +407,7 @@ def _real_unpack(n_targets, star, source):
     lhs = ", ".join(("*" + n) if i == star else n for i, n in enumerate(names)) + ("," if n_targets == 1 else "")
     targets = ast.parse(f"{lhs} = src").body[0].targets[0].elts
     try:
-        return PA.PrepareAst._split_target(None, targets, list(source))
+        return PA.PrepareAst._split_target(None, targets, source)
     except AssertionError:
         return None
 
@@ -200,9 +421,27 @@ _pair = (lambda x: x + 1, lambda x: x + 2)
 _scaled = (lambda k: (lambda x, y=2: x * k + y))(7)
 
 
+def _tripled(f):
+    import functools
+
+    @functools.wraps(f)
+    def wrapper(a):
+        return 3 * f(a)
+
+    return wrapper
+
+
+@_tripled
+def _incr(a):
+    return a + 1
+
+
 def _lambda_cases():
+    # the last case: a closure produced by a functools.wraps decorator carries __wrapped__; the function that is CALLED is
+    # the wrapper, so the wrapper's body is the one to compile (inspect.getsource(function) follows __wrapped__)
     return [("single lambda", _single, (3, 4)), ("inner lambda of a nested pair", _offset_from(10), (3,)), ("first of two lambdas on a line", _pair[0], (5,)),
-            ("second of two lambdas on a line", _pair[1], (5,)), ("inner lambda with closure and default", _scaled, (3,))]
+            ("second of two lambdas on a line", _pair[1], (5,)), ("inner lambda with closure and default", _scaled, (3,)),
+            ("closure returned by a functools.wraps decorator", _incr, (4,))]
 
 
 def _run_definition(fdef, fn, args):
@@ -236,12 +475,15 @@ def subset_sweep(tier="quick", seed=0):
     for n_targets in range(1, max_t + 1):
         for star in [None] + list(range(n_targets)):
             for length in range(0, max_s + 1):
-                source = [f"e{i}" for i in range(length)]
-                n += 1
-                want, got = _cpython_unpack(n_targets, star, source), _real_unpack(n_targets, star, source)
-                if want != got:
-                    what = "accepts an unpacking CPython rejects" if want is None else "rejects an unpacking CPython accepts" if got is None else "splits differently"
-                    fails.setdefault("unpack: " + what, f"{n_targets} targets, star at {star}, source of {length} elements: CPython {want}, _split_target {got}")
+                for kind in (list, tuple):  # the starred target is bound to a LIST whatever the source sequence is
+                    source = kind(f"e{i}" for i in range(length))
+                    n += 1
+                    want, got = _cpython_unpack(n_targets, star, source), _real_unpack(n_targets, star, source)
+                    if want is not None and got is not None:
+                        want, got = list(want), list(got)
+                    if want != got:
+                        what = "accepts an unpacking CPython rejects" if want is None else "rejects an unpacking CPython accepts" if got is None else "splits differently"
+                        fails.setdefault("unpack: " + what, f"{n_targets} targets, star at {star}, {kind.__name__} source of {length} elements: CPython {want}, _split_target {got}")
     for label, fn, args in _lambda_cases():
         n += 1
         want = fn(*args)
@@ -254,7 +496,7 @@ def subset_sweep(tier="quick", seed=0):
         except Exception as e:  # noqa: BLE001
             got = f"raised {type(e).__name__}: {e}"
         if callable(got) or got != want:
-            fails.setdefault("lambda source lookup picks another function's body", f"{label}: the function computes {want!r}, the body selected for it gives {got!r}")
+            fails.setdefault("definition lookup follows __wrapped__ to another function's body" if "wraps" in label else "lambda source lookup picks another function's body", f"{label}: the function computes {want!r}, the body selected for it gives {got!r}")
     # name resolution: closure cell before module global before builtin
     sb = CAS._ScopeBase.__dict__["_capture_env"]
     for in_cell, in_global, in_builtin in _env_arrangements():
